@@ -843,6 +843,49 @@ def b18_first_complete_matching_ends_the_backtracking(ctx) -> None:
                           "several labels of the other side -- the second search then builds two specifications that do not correspond")
 
 
+def b19_equiv_is_guarded_by_the_kind(ctx) -> None:
+    """Two constructors are equivalent only if they are of the same kind: in every `equiv` of
+    the package the kind test (`isinstance(other, type(self))`) is a conjunct of the *whole*
+    answer.  Written `A and B or C`, the last alternative is not under the kind test (`and`
+    binds tighter than `or`), and a product matches a union."""
+    P = ctx.P
+    n = 0
+    for cls in P.subclasses(P.need_class("Constructor"), strict=True):
+        m = cls.methods.get("equiv")
+        if m is None:
+            continue
+        f = m.node
+        ctx.analysed(m)
+        other = [p_ for p_ in m.params() if p_ != "self"][0]
+        for r in C.returns_of(f):
+            if r.value is None:
+                continue
+            v = D.expanded(f, r.value)
+            first = v.elts[0] if isinstance(v, ast.Tuple) and v.elts else v
+            first = D.expanded(f, first) if isinstance(first, ast.Name) else first
+            n += 1
+
+            def kind_test(e) -> bool:
+                return isinstance(e, ast.Call) and norm(e.func) == "isinstance" and len(e.args) == 2 and norm(e.args[0]) == other
+            if kind_test(first) or (isinstance(first, ast.BoolOp) and isinstance(first.op, ast.And) and any(kind_test(x) for x in first.values)):
+                ctx.ok("B19", f"{m.qualname}: the kind test is a conjunct of the whole answer")
+            elif isinstance(first, ast.BoolOp) and isinstance(first.op, ast.Or) and any(kind_test(y) for x in first.values for y in ast.walk(x)):
+                loose = [x for x in first.values if not any(kind_test(y) for y in ast.walk(x))]
+                ctx.violation("B19", r, f"{m.qualname} answers `{norm(first)[:90]}`: the alternative `{norm(loose[0])[:50] if loose else '...'}` is not under the kind test (`and` binds "
+                              f"tighter than `or`), so a {cls.name} is declared equivalent to a constructor of another kind and the matcher pairs a product with a union")
+            elif isinstance(first, ast.Constant) and first.value is False:
+                pass
+            else:
+                # answered through a guard: `if not isinstance(...): return (False, None)`
+                gs = [(norm(t), p_) for t, p_ in C.flatten_guards(C.guards(f, r))]
+                if any((p_ and t.startswith(f"isinstance({other},")) for t, p_ in gs):
+                    ctx.ok("B19", f"{m.qualname}: answered under the kind test")
+                else:
+                    raise AnalysisError(f"B19: {m.qualname} answers `{norm(first)[:60]}`, where the kind test is not found")
+    if n < 4:
+        ctx.floor("B19", 99)
+
+
 # ------------------------------------------------------------------ B8 two-sided acceptance in the second search
 def b8_two_sided_acceptance(ctx) -> None:
     """The second search of the parallel finder assigns one rule per label on *both* sides.  A
@@ -957,7 +1000,9 @@ def b10_expansion_until_spec(ctx) -> None:
 
 # ------------------------------------------------------------------ B11 / B12 equivalence-path comparison
 def _zip_calls(e: ast.AST) -> List[ast.Call]:
-    return [c for c in ast.walk(e) if isinstance(c, ast.Call) and isinstance(c.func, ast.Name) and c.func.id == "zip" and len(c.args) == 2]
+    """zip(a, b) -- and map(f, a, b), which pairs its two iterables the same way and also stops at the shorter."""
+    return [c for c in ast.walk(e) if isinstance(c, ast.Call) and isinstance(c.func, ast.Name)
+            and ((c.func.id == "zip" and len(c.args) == 2) or (c.func.id == "map" and len(c.args) == 3))]
 
 
 def b11_paths_same_length(ctx) -> None:
@@ -971,7 +1016,7 @@ def b11_paths_same_length(ctx) -> None:
         raise AnalysisError("B11: _eq_path_matches no longer compares the two rule paths pairwise (zip)")
     for v in verdicts:
         for z in _zip_calls(v.value):
-            a, b = norm(z.args[0]), norm(z.args[1])
+            a, b = norm(z.args[-2]), norm(z.args[-1])
             strict = any(k.arg == "strict" and isinstance(k.value, ast.Constant) and k.value.value is True for k in z.keywords)
             conj = {norm(e) for e, pol in C.flatten_guards([(v.value, True)] + C.guards(f, v)) if pol}
             if strict or f"len({a}) == len({b})" in conj or f"len({b}) == len({a})" in conj:
